@@ -343,8 +343,6 @@ func (s *IPSet) ListSets() ([]string, error) {
 	return strings.Split(string(out), "\n"), nil
 }
 
-var memberRE = regexp.MustCompile(ipset.EntryMemberPattern)
-
 // ListEntries is part of Interface.
 func (s *IPSet) ListEntries(set string) ([]string, error) {
 	if len(set) == 0 {
@@ -354,7 +352,8 @@ func (s *IPSet) ListEntries(set string) ([]string, error) {
 	if err != nil {
 		return nil, fmt.Errorf("error listing set: %s, error: %v", set, err)
 	}
-	list := memberRE.ReplaceAllString(string(out), "")
+	// compiled per call, as the runner does (a shared *regexp.Regexp would synchronise callers through its pool)
+	list := regexp.MustCompile(ipset.EntryMemberPattern).ReplaceAllString(string(out), "")
 	results := make([]string, 0)
 	for _, l := range strings.Split(list, "\n") {
 		if len(l) > 0 {
